@@ -739,6 +739,7 @@ struct LcSim : Harness {
     // programs with lref tables keep to one engine family (known finding: the table is shared between engines), except
     // in a few probing runs of the modes whose statements cover engine mixing
     bool probe_mix = (m == "C03" || m == "C16") && r.chance(1, 25);
+    bool use_resolver_run = r.chance(1, 4);
     int family = go.lref && !probe_mix ? (r.chance(1, 3) ? 1 : 2) : 0; bool any_bb = false;  // whole run linked without an interface: build/output/write/finish only
     while (!remaining.empty()) {
       std::vector<size_t> rem(remaining.begin(), remaining.end()); std::set<size_t> step; std::vector<size_t> work = {rem[r.below(rem.size())]};
@@ -760,7 +761,7 @@ struct LcSim : Harness {
       }
       if (iface == 4 && !probe_mix && (int) kn.geti("placement", 1) >= P_SPREAD_4G) iface = 3;  // bb thunks reach only +-2GB (known finding, probed rarely)
       if (iface == 4) any_bb = true;
-      push({"link", iface, 0});
+      push({"link", iface, (int) use_resolver_run});   // externals come from the import resolver instead of MIR_load_external
       // between link steps: execute, interpret or explicitly generate functions of the modules linked so far (a function may get
       // its code while a callee in the same module has none yet, before a later step generates eagerly)
       if (!remaining.empty()) {
